@@ -505,7 +505,7 @@ class Models:
         # <T as Into<U>>::into == U::from(T)
         ga = e.get("gargs") or []
         if len(ga) >= 2:
-            r = self._from(e, st, a, self.I.subst_ty(st, ga[0]), self.I.subst_ty(st, ga[1]))
+            r = self._from(e, st, a, ga[0], ga[1])
             if r is not None:
                 return r
         return [(st, "val", a[0])]
@@ -513,14 +513,14 @@ class Models:
     def m_from(self, e, st, a):
         ga = e.get("gargs") or []
         if len(ga) >= 2:
-            r = self._from(e, st, a, self.I.subst_ty(st, ga[1]), self.I.subst_ty(st, ga[0]))
+            r = self._from(e, st, a, ga[1], ga[0])
             if r is not None:
                 return r
         return [(st, "val", a[0])]
 
     def _from(self, e, st, a, src, dst):
         F = self.I.F
-        dk, sk = F.ty_key(dst), F.ty_key(src)
+        dk, sk = self.I.ty_key_subst(st, dst), self.I.ty_key_subst(st, src)
         for im in F.impls:
             if im["trait"] == "std::convert::From" and F.ty_key(im["self"]) == dk and len(im["trait_args"]) > 1:
                 ta = F.ty_key(im["trait_args"][1])
@@ -549,18 +549,18 @@ class Models:
                 return out
         ga = e.get("gargs") or []
         if len(ga) >= 2:
-            return self._try_from(e, st, a, self.I.subst_ty(st, ga[0]), self.I.subst_ty(st, ga[1]))
+            return self._try_from(e, st, a, ga[0], ga[1])
         return None
 
     def m_try_from(self, e, st, a):
         ga = e.get("gargs") or []
         if len(ga) >= 2:
-            return self._try_from(e, st, a, self.I.subst_ty(st, ga[1]), self.I.subst_ty(st, ga[0]))
+            return self._try_from(e, st, a, ga[1], ga[0])
         return None
 
     def _try_from(self, e, st, a, src, dst):
         F = self.I.F
-        dk, sk = F.ty_key(dst), F.ty_key(src)
+        dk, sk = self.I.ty_key_subst(st, dst), self.I.ty_key_subst(st, src)
         for im in F.impls:
             if im["trait"] == "std::convert::TryFrom" and F.ty_key(im["self"]) == dk and len(im["trait_args"]) > 1:
                 if F.ty_key(im["trait_args"][1]) == sk:
@@ -618,6 +618,7 @@ class Models:
             c = self.I.read_loc(st, c.key, c.path)
         if isinstance(c, CollV):
             st.colls[c.seq] = st.colls.get(c.seq, ()) + ((list(st.pc), v, st.exist, "push"),)
+            st.tiles.pop(c.seq, None)
             return [(st, "val", UNIT)]
         return None
 
